@@ -986,18 +986,22 @@ func TestVerifC16RetryTimer(t *testing.T) {
 		Server bool `json:"server"`
 		Extra  bool `json:"extraStream"` // another, normal stream on the same connection
 		Wait   bool `json:"waitOutRetryPeriod"`
+		// PeerEnds: the connection ends the usual way - the peer closes (Read returns EOF), then this side calls Close -
+		// so the tracer learns twice that the connection is gone
+		PeerEnds bool `json:"peerEnds"`
 	}
 	var rows []row
 	for _, server := range []bool{false, true} {
 		for _, extra := range []bool{false, true} {
 			for _, wait := range []bool{true, false} {
-				rows = append(rows, row{server, extra, wait})
+				rows = append(rows, row{server, extra, wait, false})
 			}
+			rows = append(rows, row{server, extra, false, true})
 		}
 	}
 	var mu sync.Mutex // vfBeforeClose is a package variable: one exchange at a time
 	for _, r := range rows {
-		ex := vfExchange{Server: r.Server, GoAwayAt: -1}
+		ex := vfExchange{Server: r.Server, GoAwayAt: -1, PeerCloses: r.PeerEnds}
 		ex.Streams = append(ex.Streams, vfStreamSpec{Named: true, Name: 0, Attempt: 1, ReqCT: "application/proto", RespCT: "application/proto",
 			ReqMsgs: []vfMsg{{Payload: []byte("ping")}}, Fault: "refused", FaultAt: 1, RSTCode: 7, Order: []bool{true, false}})
 		if r.Extra {
